@@ -57,12 +57,16 @@ def branch():
 @st.composite
 def core(draw):
     kind = draw(st.sampled_from(["untyped", "typed", "typelist1", "typelistN", "compose", "compose",
-                                 "compose2", "object"]))
+                                 "compose2", "object", "typelist1-object"]))
     s = {}
     if kind == "typed":
         s["type"] = draw(st.sampled_from(TYPES))
     elif kind == "typelist1":
         s["type"] = [draw(st.sampled_from(TYPES + ["object"]))]
+    elif kind == "typelist1-object":
+        kind = "typelist1"
+        s["type"] = ["object"]
+        s["properties"] = {"p": {"type": "integer"}}
     elif kind == "typelistN":
         s["type"] = draw(st.lists(st.sampled_from(TYPES + ["object"]), min_size=2, max_size=3, unique=True))
     elif kind in ("compose", "compose2"):
@@ -219,6 +223,27 @@ def predicate(case, stats):
         elif not json_identical(have, declared):
             fails.append({"sub": "parse", "kind": "default-altered-by-parser", "declared": declared,
                           "got": repr(have)[:100]})
+    # every sibling / enclosing position: defaults stay where they were declared (never moved or shared)
+    def positions(sch, prefix):
+        if isinstance(sch, dict) and isinstance(sch.get("properties"), dict) and (
+                sch.get("type") == "object" or sch.get("type") == ["object"]):
+            for pname, sub in sch["properties"].items():
+                yield prefix + [pname], sub
+                yield from positions(sub, prefix + [pname])
+
+    for pth, sub in positions(schema, []):
+        if pth == case["path"] or not isinstance(sub, dict):
+            continue
+        el = navigate(root, pth)
+        if el is None:
+            continue
+        want = sub.get("default", NotPassed())
+        have = getattr(el, "default", NotPassed())
+        if isinstance(want, NotPassed) and not isinstance(have, NotPassed):
+            fails.append({"sub": "parse", "kind": "default-leaked-to-another-element", "path": pth,
+                          "got": repr(have)[:100]})
+        elif not isinstance(want, NotPassed) and (isinstance(have, NotPassed) or not json_identical(have, want)):
+            fails.append({"sub": "parse", "kind": "sibling-default-altered", "path": pth})
     # serialize_json: multiset of defaults
     want = sorted(canon(d) for d in declared_defaults(schema))
     js = observe.ser_json(root)
